@@ -45,6 +45,7 @@ func init() {
 
 func runC30(c *Ctx) {
 	u, r := c.U, c.R
+	seedfixC30(c)
 	// R-META-CHANNEL
 	if bm := c.Fn("R-META-CHANNEL", "batchMetadata"); bm != nil {
 		k := 0
@@ -190,6 +191,7 @@ func runC30(c *Ctx) {
 
 func runC31(c *Ctx) {
 	u, r := c.U, c.R
+	seedfixC31(c)
 	rf := c.Fn("R-VALIDATE-FIRST", "ResolveExternalLocation")
 	ff := c.Fn("R-VALIDATE-FIRST", "fetchExternalData")
 	if rf == nil || ff == nil {
